@@ -544,7 +544,7 @@ def cases(rng, tier):
     quick = tier == "quick"
     maxdepth = 4 if quick else 6
     # ---- main stream: mostly valid trees
-    for _ in range(1150 if quick else 9000):
+    for _ in range(6000 if quick else 24000):
         spec, dims, fields = gen_env(rng, tier)
         tg = TreeGen(rng, fields, spec["n"], maxdepth)
         g = tg.gen(rng.randint(1, maxdepth))
@@ -554,7 +554,7 @@ def cases(rng, tier):
             tries += 1
         yield dict(kind="tree", meshes=[spec], fields=fields, expr=g.node)
     # ---- route (iii): angle / phase at the root, tolerance division
-    for _ in range(110 if quick else 900):
+    for _ in range(500 if quick else 2000):
         spec, dims, fields = gen_env(rng, tier, same_nv=True)
         fields = [f for f in fields if f["im"] is None] or [gen_field_spec(rng, 0, int(np.prod(spec["n"])), len(spec["n"]), dims, dtype="float64")]
         tg = TreeGen(rng, fields, spec["n"], 2, allow_cplx=False)
@@ -590,12 +590,12 @@ def cases(rng, tier):
             op = rng.choice(["div", "div", "udiv"])
             yield dict(kind="tdiv", meshes=[spec], fields=fields, expr=dict(t="bin", op=op, l=L.node, r=R.node))
     # ---- malformed stream
-    for _ in range(260 if quick else 2200):
+    for _ in range(1200 if quick else 5000):
         spec, dims, fields = gen_env(rng, tier)
         g = malformed_tree(rng, fields, spec["n"], rng.randint(1, 3))
         yield dict(kind="malformed", meshes=[spec], fields=fields, expr=g.node)
     # ---- mismatch stream: different meshes / component counts under every binary operation
-    for _ in range(170 if quick else 1400):
+    for _ in range(600 if quick else 2500):
         spec, dims, _ = gen_env(rng, tier, nfields=1)
         n = spec["n"]
         ndim = len(n)
@@ -639,7 +639,7 @@ def cases(rng, tier):
             node = dict(t="un", op="neg", e=node)
         yield dict(kind="angle" if op == "angle" else "mismatch", how=how, meshes=[spec, spec2], fields=[f1, f2], expr=node)
     # ---- metadata stream: a∘b vs b∘a, labelled scalars, differing labels, stacking
-    for _ in range(170 if quick else 1400):
+    for _ in range(600 if quick else 2500):
         spec, dims, _ = gen_env(rng, tier, nfields=1)
         n = spec["n"]
         ndim = len(n)
@@ -653,7 +653,7 @@ def cases(rng, tier):
         op = rng.choice(["add", "mul"])
         yield dict(kind="tree", meshes=[spec], fields=[f1, f2],
                    expr=dict(t="bin", op=op, l=dict(t="leaf", k=0), r=dict(t="leaf", k=1)))
-    for _ in range(120 if quick else 900):
+    for _ in range(300 if quick else 1200):
         spec, dims, _ = gen_env(rng, tier, nfields=1)
         n = spec["n"]
         f1 = gen_field_spec(rng, 0, int(np.prod(n)), len(n), dims, nv=rng.choice([1, 2, 3, 3, 4, len(n)]))
